@@ -153,10 +153,21 @@ fn execute(case: &Case, tables: &ast::Tables) -> Observed {
             }
         }
         sim.settle();
-        // let every timer-delayed suspended program fire (delays <= 20 ms, chains <= 8 long)
-        for _ in 0..10 {
+        // let every timer-delayed suspended program fire: delays are <= 20 ms, so a 25 ms step with no
+        // new record means no timer was pending (a fired timer records at least its Begin)
+        let mut quiet = 0;
+        for _ in 0..200 {
+            let before = shared.trace_len();
             sim.advance(Duration::from_millis(25)).await;
             sim.settle();
+            if shared.trace_len() == before || sim.is_done() {
+                quiet += 1;
+                if quiet >= 2 {
+                    break;
+                }
+            } else {
+                quiet = 0;
+            }
         }
         // probe: read every lane through a fresh, fast remote (the model must agree with the real state)
         let mut probed = false;
@@ -253,6 +264,10 @@ fn check(case: &Case) -> Verdict {
     v.class_if(obs.outcome.alive_after_drain, "alive-until-final-stop");
     v.class_if(!obs.done, "agent-did-not-finish");
     v.class_if(matches!(obs.outcome.result, Some(Err(_))), "agent-error");
+    v.class_if(
+        matches!(obs.outcome.result, Some(Err(_))) && !rep.fatal_failure && !rep.start_stopped && rep.failures.is_empty(),
+        "agent-error-without-handler-failure",
+    );
     v.class_if(rep.overflow, "skipped:overflow");
     v.class_if(st.branches > 0, "branch");
     v.class_if(st.noop_removes > 0, "noop-remove");
@@ -298,7 +313,7 @@ fn main() {
     let n: u64 = std::env::var("C06_CASES")
         .ok()
         .and_then(|s| s.parse().ok())
-        .unwrap_or(ctx.pick(600_000, 20_000_000));
+        .unwrap_or(ctx.pick(600_000, 12_000_000));
     let max_ops = ctx.pick(40, 120);
     ctx.prop(
         "handler-order",
